@@ -201,6 +201,21 @@ pub fn run_c02(cfg: &RunCfg, trace: bool) -> RunOut {
                     }
                 }
             }
+            // ... and one backend alone must not call an entry "missing" that is there: a single-path
+            // call on an EXISTING entry (its parent therefore an existing directory) answered with the
+            // not-found class by exactly one side is a disagreement on that class
+            if let (Res::Err(a), Res::Err(b)) = (&r0, &r1) {
+                let ps = op.paths();
+                if ps.len() == 1 && (a.class == ErrClass::NotFound) != (b.class == ErrClass::NotFound) {
+                    if let Ok(c) = canon(&ps[0].s) {
+                        if before.m[0].exists(&c) && !before.w.values().any(|w| w.path == c) {
+                            let key = format!("C02|mem+phys|{}|{}|not-found-on-one-side:{:?}-vs-{:?}", op.kind(), tcl, a.class, b.class);
+                            cx.violate(i, key, format!("step {} {:?}: the entry exists, one backend alone reports not-found: '{}' vs '{}'", i, op, a.display, b.display));
+                            break;
+                        }
+                    }
+                }
+            }
             if r0.is_panic() || r1.is_panic() {
                 break;
             }
